@@ -94,6 +94,8 @@ def check(m, run):
     run.floor('LY3.sizes-in-axis-order', 10, 'control point setters of surfaces and volumes')
     # the object returned without inplace is a deep copy that shares nothing (cache included) with the argument
     rs.iv4_deepcopy(m, run)
+    from .. import skel_drivers as _sdsc
+    _sdsc.sc2(m, run)
     rs.iv3_cache_keys(m, run, rs.CONCRETE)      # ... and starts with empty caches, whatever its source had cached (CK3)
     # the rotation origin is the start of the domain: the domain of a direction is [knot[degree], knot[-(degree + 1)]]
     from . import c17 as _c17
